@@ -309,6 +309,9 @@ func RandValue(r *core.Rng, c hist.Column, loc *time.Location) hist.Value {
 	case ev.TTimestamp2:
 		sec := randEpoch(r)
 		micro := r.Intn(1000000)
+		if sec == 0 {
+			micro = 0 // the zero timestamp has no fraction (MySQL cannot store one)
+		}
 		return hist.Value{Enc: val.EncTimestamp2(sec, micro, int(meta)), Text: []byte(val.TimestampText(sec, micro, int(meta), loc))}
 	case ev.TDate, ev.TNewDate:
 		y, m, d := randDate(r)
